@@ -36,6 +36,7 @@ Section Model.
   Variable vfront : val.             (* the front's name (string) *)
   Variable vempty : val.             (* "" *)
   Variable route : alist val -> option Z.   (* route function of the forwarded type, applied to the session *)
+  Variable kinst : Z.                (* the instance serving OForwardKeep's type (default route) *)
 
   Definition smap := alist val.
 
@@ -48,7 +49,10 @@ Section Model.
   (* one step of a handler script run on ONE BackSession without yielding the service
      goroutine: acknowledgements (push / query callbacks) can only be handled after the last
      step *)
-  Inductive act := ASet (k : Z) (v : val) | APush | AQuery.
+  Inductive act :=
+  | ASet (k : Z) (v : val) | APush | AQuery
+  | AKick.   (* bs.Kick(): the front closes the connection when it handles sys.kick; the session stays
+               registered until the posted RemoveSession runs - after the messages already queued *)
 
   Inductive op :=
   | OConnect (sid : Z)
@@ -63,7 +67,10 @@ Section Model.
   | OBackDump (b : Z)                      (* bs.ToJson() *)
   | OBackPush (b : Z)
   | OBackQuery (b : Z)
-  | OBackScript (b : Z) (acts : list act). (* pipelined: nothing is awaited between the steps *)
+  | OBackScript (b : Z) (acts : list act)  (* pipelined: nothing is awaited between the steps *)
+  | OForwardKeep (sid b : Z).              (* a forwarded request of sid whose handler ANSWERS FIRST and then
+                                              keeps ctx.Session (the BackSession built from the envelope) as
+                                              handle b, to go on using it *)
 
   Inductive obs :=
   | BUnit
@@ -74,6 +81,8 @@ Section Model.
   | BFwdNone                               (* no target: error response *)
   | BOk
   | BErr                                   (* ErrorNoSession *)
+  | BClosed (m : smap)                     (* what the OnClose handler saw (ToJson) when the session was removed *)
+  | BAcksClosed (l : list bool) (m : smap) (* a script that kicked its connection: callback results + the OnClose view *)
   | BAcks (l : list bool)                  (* callback results of a script's pushes / queries, in step order *)
   | BBroken.                               (* never produced by the model: the implementation did not answer at all *)
 
@@ -114,11 +123,13 @@ Section Model.
     | [] => d
     | ASet _ _ :: r => script_dirty true r
     | APush :: r => script_dirty false r
-    | AQuery :: r => script_dirty d r
+    | AQuery :: r | AKick :: r => script_dirty d r
     end.
 
   Definition is_query (a : act) : bool := match a with AQuery => true | _ => false end.
   Definition has_query (acts : list act) : bool := existsb is_query acts.
+  Definition is_kick (a : act) : bool := match a with AKick => true | _ => false end.
+  Definition has_kick (acts : list act) : bool := existsb is_kick acts.
 
   (* the front-end's map of a live connection after the script's pushes *)
   Fixpoint script_front (m nw : smap) (d : bool) (acts : list act) : smap :=
@@ -126,7 +137,7 @@ Section Model.
     | [] => m
     | ASet k v :: r => script_front m (aset k v nw) true r
     | APush :: r => if d then script_front (merge_into m (norm nw)) nw false r else script_front m nw d r
-    | AQuery :: r => script_front m nw d r
+    | AQuery :: r | AKick :: r => script_front m nw d r
     end.
 
   (* what the script's queries return (the map at the moment the front-end handles them) *)
@@ -136,12 +147,13 @@ Section Model.
     | ASet k v :: r => script_snaps m (aset k v nw) true r
     | APush :: r => if d then script_snaps (merge_into m (norm nw)) nw false r else script_snaps m nw d r
     | AQuery :: r => norm m :: script_snaps m nw d r
+    | AKick :: r => script_snaps m nw d r
     end.
 
   Definition script_data (data : smap) (snaps : list smap) : smap := fold_left merge_into snaps data.
 
   Definition script_acks (alive : bool) (acts : list act) : list bool :=
-    flat_map (fun a => match a with ASet _ _ => [] | APush => [true] | AQuery => [alive] end) acts.
+    flat_map (fun a => match a with ASet _ _ | AKick => [] | APush => [true] | AQuery => [alive] end) acts.
 
   Definition step (s : st) (o : op) : st * obs :=
     match o with
@@ -152,7 +164,7 @@ Section Model.
         end
     | ORemove sid =>
         match live s sid with
-        | Some _ => (mkSt (aset sid Dead (front s)) (backs s), BUnit)
+        | Some m => (mkSt (aset sid Dead (front s)) (backs s), BClosed (norm m))
         | None => (s, BIgnored)
         end
     | OFrontSet sid k v =>
@@ -229,18 +241,31 @@ Section Model.
             let nw := script_new (b_new bs) acts in
             match live s (b_sid bs) with
             | Some m =>
-                (mkSt (aset (b_sid bs) (Live (script_front m (b_new bs) (b_dirty bs) acts)) (front s))
+                (mkSt (aset (b_sid bs)
+                            (if has_kick acts then Dead else Live (script_front m (b_new bs) (b_dirty bs) acts))
+                            (front s))
                       (aset b (mkB (b_sid bs)
                                    (script_data (b_data bs) (script_snaps m (b_new bs) (b_dirty bs) acts))
                                    nw
                                    (if has_query acts then false else script_dirty (b_dirty bs) acts))
                             (backs s)),
-                 BAcks (script_acks true acts))
+                 if has_kick acts
+                 then BAcksClosed (script_acks true acts) (norm (script_front m (b_new bs) (b_dirty bs) acts))
+                 else BAcks (script_acks true acts))
             | None =>
                 (mkSt (front s)
                       (aset b (mkB (b_sid bs) (b_data bs) nw (script_dirty (b_dirty bs) acts)) (backs s)),
                  BAcks (script_acks false acts))
             end
+        | None => (s, BIgnored)
+        end
+    | OForwardKeep sid b =>
+        match live s sid with
+        | Some m =>
+            (match aget b (backs s) with
+             | None => mkSt (front s) (aset b (mkB sid (aset k_id (id_of m) []) [] false) (backs s))
+             | Some _ => s
+             end, BFwd kinst (id_of m) vfront sid)
         | None => (s, BIgnored)
         end
     end.
@@ -274,6 +299,8 @@ Arguments OBackDump {val} b.
 Arguments OBackPush {val} b.
 Arguments OBackQuery {val} b.
 Arguments OBackScript {val} b acts.
+Arguments OForwardKeep {val} sid b.
+Arguments AKick {val}.
 Arguments ASet {val} k v.
 Arguments APush {val}.
 Arguments AQuery {val}.
@@ -286,4 +313,6 @@ Arguments BFwdNone {val}.
 Arguments BOk {val}.
 Arguments BErr {val}.
 Arguments BAcks {val} l.
+Arguments BClosed {val} m.
+Arguments BAcksClosed {val} l m.
 Arguments BBroken {val}.
